@@ -82,7 +82,7 @@ func TestCorpus(t *testing.T) {
 		os.MkdirAll(corpusDir(), 0o755)
 		var sb strings.Builder
 		for _, typ := range sortedTypes() {
-			for _, pn := range []string{"custom-a", "custom-b", "minimal"} {
+			for _, pn := range []string{"custom-a", "custom-b", "custom-c", "minimal"} {
 				p := reg.GetPreset(pn)
 				var c *Case
 				rapid.Check(quiet{t}, func(rt *rapid.T) {
